@@ -5,6 +5,7 @@ from vlib.common import Outcome, Violation
 from vlib import gen_app, wenv, ref_response
 
 PROPERTY = "C02"
+OSERROR_FAMILY = ("FileNotFoundError", "PermissionError", "TimeoutError", "OSError:EIO", "ConnectionResetError", "socket.timeout")
 RULE = ("1-3 pipelined request heads (method incl. HEAD, HTTP/1.0|1.1, Connection variants, Expect, bodies) x one WSGI application "
         "program per request (status, headers with/without Content-Length exact/smaller/zero, body as list/generator/write()/"
         "write()+iterable/file_wrapper over a real file at an offset/file_wrapper over BytesIO, lazy start_response, failure points) "
@@ -175,6 +176,12 @@ def run_case(case):
             stop = True
             break
         resp = ref_response.parse_response(data, pos, "GET" if fail else method)
+        if resp is None and fail and prog.get("fail_exc") in OSERROR_FAMILY:
+            # the application itself raised an OSError: the workers take any OSError coming out of handle_request() for trouble
+            # with the client socket, log it and just close - no response at all, which the statement does not forbid
+            classes.append("fail:oserror-silent-close")
+            stop = True
+            break
         if resp is None:
             V("one-response-per-call", "no-response-for-handled-request", {"request": i}, "a response")
             break
@@ -189,6 +196,10 @@ def run_case(case):
             classes.append("interim-100")
             pos = resp.end
             resp = ref_response.parse_response(data, pos, "GET" if fail else method)
+            if resp is None and fail and prog.get("fail_exc") in OSERROR_FAMILY:
+                classes.append("fail:oserror-silent-close")
+                stop = True
+                break
             if resp is None:
                 V("one-response-per-call", "no-final-response-after-100", None, "a final response")
                 break
@@ -204,6 +215,13 @@ def run_case(case):
                     V("failure-response", "error-page-misframed", resp.brief(), "Content-Length framed 500 page")
                 elif resp.end != len(data):
                     V("failure-response", "bytes-after-error-page", {"extra": data[resp.end:resp.end + 200]}, "nothing")
+            elif not nobody and not out[:cl if cl is not None else len(out)].startswith(resp.body) and resp.status == code \
+                    and not (code == 500 and resp.body.startswith(b"<html>") and b"Internal Server Error" in resp.body):
+                # headers (and maybe part of the body) were sent before the failure: what the client decodes is a prefix of what
+                # the application produced - nothing else (an error page, a second head) is spliced into the running response
+                V("failure-response", "foreign-bytes-in-response-body-after-failure:%s" % resp.framing,
+                  {"decoded_tail": resp.body[-120:], "decoded_len": len(resp.body), "exception": prog.get("fail_exc") or "RuntimeError"},
+                  "a prefix of the application's output")
             elif resp.framing == "chunked" and resp.complete and fail in ("mid",) and rec["raised"] == "app:mid" \
                     and prog.get("fail_k", 0) < len(prog.get("chunks", [])):
                 V("failure-response", "complete-chunked-response-after-mid-body-failure", resp.brief(), "no terminating chunk")
